@@ -244,6 +244,18 @@ def job_fit(job, n, inf_hi=False):
                 job.prove(f"fit[{tag}]/raises (initial guess outside the bounds handed to curve_fit?)[path{k}]", pr.pc, bound=f"{n} samples", replay=rp, note=str(pr.exc)[:60])
                 continue
             f, calls = pr.value
+            inside = [T.b_lt(P(f.M_), P(vs["M0"]))] + ([] if inf_hi else [T.b_lt(P(M1), P(f.M_))])
+            if with_tau:
+                inside.append(T.b_not(T.b_eq0(P(f.tau_ - tau_in))))
+            else:
+                inside += [T.b_lt(P(f.tau_), P(vs["tau0"]))] + ([] if inf_hi else [T.b_lt(P(tau1), P(f.tau_))])
+            if not calls:
+                # this path fits without the optimiser (a closed form, a shortcut): what it returns must still respect the
+                # configured bounds; whether it is the bounded least-squares optimum is decided by the replay on the real code
+                job.prove(f"fit[{tag}]/fitted M_, tau_ inside the configured bounds" + (" and supplied tau unchanged" if with_tau else "") + f" (no optimiser call on this path)[path{k}]",
+                          pr.pc + [T.b_or(*inside)], bound=f"{n} samples", replay=(replay_lsq, {"with_tau": with_tau}))
+                job.prove(f"fit[{tag}]/reach[path{k}]", pr.pc, expect="sat")
+                continue
             c = calls[0]
             def same(a, b):
                 if isinstance(a, float) or isinstance(b, float):
@@ -253,11 +265,6 @@ def job_fit(job, n, inf_hi=False):
             if not with_tau:
                 lo_ok += [same(c["lo"][1], vs["tau0"]), same(c["hi"][1], tau1)]
             job.prove(f"fit[{tag}]/bounds handed to curve_fit are the configured ones in its order[path{k}]", pr.pc + [T.b_not(T.b_and(*lo_ok))], bound=f"{n} samples", replay=rp)
-            inside = [T.b_lt(P(f.M_), P(vs["M0"]))] + ([] if inf_hi else [T.b_lt(P(M1), P(f.M_))])
-            if with_tau:
-                inside.append(T.b_not(T.b_eq0(P(f.tau_ - tau_in))))
-            else:
-                inside += [T.b_lt(P(f.tau_), P(vs["tau0"]))] + ([] if inf_hi else [T.b_lt(P(tau1), P(f.tau_))])
             job.prove(f"fit[{tag}]/fitted M_, tau_ inside the configured bounds" + (" and supplied tau unchanged" if with_tau else "") + f"[path{k}]",
                       pr.pc + [T.b_or(*inside)], bound=f"{n} samples", replay=rp)
             # the optimiser is asked for the plain problem: unweighted residuals, linear loss (scipy's defaults); anything else
@@ -336,20 +343,29 @@ def job_refit(job, n):
             mk = lambda: mod.ForecasterOnePhase(rf, mod.Bounds(M=(vs["M0"], M1), tau=(vs["tau0"], tau1)))
             f = mk()
             f.fit(*data["A"], tau=tau_in["A"] if first_tau else None)
+            n1 = len(SS.OptCalls.curve_fit)
             f.fit(*data["B"], tau=tau_in["B"] if second_tau else None)
+            n2 = len(SS.OptCalls.curve_fit)
             g = mk()
             g.fit(*data["B"], tau=tau_in["B"] if second_tau else None)
-            return list(SS.OptCalls.curve_fit)
+            return list(SS.OptCalls.curve_fit), (n1, n2), (f.M_, f.tau_), (g.M_, g.tau_)
         tag = f"refit[first {'with' if first_tau else 'without'} tau, second {'with' if second_tau else 'without'} tau]"
         rp = (replay_refit, {"with_tau": second_tau})
         for k, pr in enumerate(paths(job, run, dom, catch=(ValueError,), max_paths=256)):
             if pr.exc is not None:
                 continue        # an initial guess outside the bounds: job_fit's subject
-            calls = pr.value
-            if len(calls) != 3:
-                job.errors.append(f"{tag}: expected three optimiser calls, saw {len(calls)}")
+            calls, (n1, n2), fout, gout = pr.value
+            if len(calls) - n2 != 1 or n2 - n1 != 1:
+                # the second fit (re-used or fresh object) did not go through exactly one optimiser call each: compare what the
+                # two objects report instead
+                differ = T.b_or(*[T.b_not(T.b_eq0(T.p_sub(P(x), P(y)))) for x, y in zip(fout, gout)])
+                if differ.kind == "const" and not differ.args[0]:
+                    job.record(f"{tag}/re-used and fresh forecaster report the same fit (no single optimiser call to compare)[path{k}]", "unsat", 0.0, bound=f"{n} samples")
+                else:
+                    job.prove(f"{tag}/re-used and fresh forecaster report the same fit (no single optimiser call to compare)[path{k}]", pr.pc + [differ], bound=f"{n} samples",
+                              replay=rp, expect="info")
                 continue
-            a, b = calls[1], calls[2]
+            a, b = calls[n1], calls[n2]
             diff = []
             for key in ("p0", "lo", "hi"):
                 if len(a[key]) != len(b[key]):
